@@ -22,6 +22,8 @@ type gen struct {
 	F     uint64 // frequency set through the accessor after every open; 0 = accessor not used (1440)
 	forks bool   // enumerate crash points of every mutating operation (C10)
 	nfork int
+	wipeAt int  // >= 0: wipe the store (all crash points) as soon as it holds exactly this many certificates
+	wiped  bool
 }
 
 type sub struct {
@@ -404,6 +406,15 @@ func (g *gen) history(steps int) {
 			continue
 		}
 		next, _ := w.cur()
+		// boundary histories: a wipe (with every crash point) of a store holding exactly g.wipeAt certificates -- 0 = straight after creation
+		if g.wipeAt >= 0 && !g.wiped && next >= w.first && int(next-w.first) == g.wipeAt {
+			g.wiped = true
+			if g.forks {
+				w.forkWipe()
+			}
+			w.deleteAll("DeleteAll")
+			continue
+		}
 		lo := w.first
 		if lo > 0 {
 			lo--
@@ -523,7 +534,10 @@ func runHistories(t *testing.T, forks bool) {
 	nh, steps := envInt("VERIF_N", 30), envInt("VERIF_STEPS", 60)
 	noacc := envInt("VERIF_NOACCESSOR_EVERY", 5) // every n-th history runs with the production frequency
 	for hi := 0; hi < nh; hi++ {
-		g := &gen{t: t, r: r, rng: rng, forks: forks}
+		g := &gen{t: t, r: r, rng: rng, forks: forks, wipeAt: -1}
+		if hi < 4 {
+			g.wipeAt = []int{0, 1, 0, 3}[hi] // the first histories wipe an empty / one-certificate / small store
+		}
 		g.F = uint64(1 + rng.Intn(5))
 		if noacc > 0 && hi%noacc == noacc-1 {
 			g.F = 0
